@@ -10,7 +10,7 @@ From WSI Require Import Vqip Pow Tank Arc Distrib Kinds TimeArea Boundary.
 Import ListNotations.
 Open Scope Q_scope.
 
-Record psurf := mkPS {
+Record perv := mkPerv {
   ps_depth : Q;            (* PerviousSurface.depth (= depth x total_porosity) *)
   ps_fc_m : Q; ps_wp_m : Q; (* field_capacity_m, wilting_point_m (fractions x constructor depth) *)
   ps_infil : Q;            (* infiltration_capacity *)
@@ -21,14 +21,14 @@ Record psurf := mkPS {
      the class computes them *)
   ps_w_prev : Q; ps_w_air : Q; ps_deep_term : Q; ps_w_total : Q
 }.
-Inductive skind := SImp (et0_to_e : Q) | SPerv (p : psurf).
+Inductive skind := SImp (et0_to_e : Q) | SPerv (p : perv).
 Record surface := mkSF { sf_kind : skind; sf_area : Q; sf_tank : tank; sf_load : vec }.
 
 Definition set_temperature (v : vqip) (T : Q) : vqip :=
   mkV (vol v) (adds v) (match nons v with [] => [] | _ :: r => T :: r end).
 
 (* PerviousSurface.ihacres on the soil tank: (tank', infiltration excess, subsurface flow, percolation, rain, evaporation) *)
-Definition ihacres (p : psurf) (area : Q) (t : tank) (rain et0 T : Q) (tn : vec)
+Definition ihacres (p : perv) (area : Q) (t : tank) (rain et0 T : Q) (tn : vec)
   : tank * vqip * vqip * vqip * Q * Q :=
   let evap_depth := et0 * ps_et0c p in
   let infiltrated := Qmin rain (ps_infil p) in
@@ -53,7 +53,7 @@ Definition ihacres (p : psurf) (area : Q) (t : tank) (rain et0 T : Q) (tn : vec)
       let '(t1, _) := t_evaporate t (- through) in (t1, vzero, vzero) in
   (t', mkV (Qred excess) [] tn, ssf_v, perc_v, Qred (rain * area), Qred (ev * area)).
 
-Definition soil_temperature (p : psurf) (t : tank) (T : Q) : tank :=
+Definition soil_temperature (p : perv) (t : tank) (T : Q) : tank :=
   let s := t_sto t in
   let cur := get (nons s) 0 in
   let new := (cur * ps_w_prev p + T * ps_w_air p + ps_deep_term p) / ps_w_total p in
